@@ -41,6 +41,21 @@ def run(ctx):
             c["results"][0] = [x + 1 for x in c["results"][0]]
             rs = ctx.harness(["c09", "replay", ctx.write_ndjson("run_self.ndjson", [c])])[-1]
             ctx.selftest("replay: expected transition counts of the first call shifted by one", len(rs["bad"]) > 0)
+    # large calls (hundreds / a thousand rows or burn-in transitions: beyond typical block and buffer thresholds)
+    for v in ("generic", "hmc"):
+        g = ctx.tlc("MC_Runner", cfg="MC_Runner_genbig_%s.cfg" % v, workers=4, timeout=900, coverage=False)
+        ctx.require_ok(g, "MC_Runner_genbig_" + v)
+        cases = g.tagged("REPLAY")
+        if len(cases) < 4:
+            raise vlib.ToolError("MC_Runner_genbig_%s: %d cases" % (v, len(cases)))
+        n_cases += len(cases)
+        res = ctx.harness(["c09", "replay", ctx.write_ndjson("runbig_%s.ndjson" % v, cases), "--heavy-every", 1 if thorough else 3], timeout=3000)[-1]
+        ctx.cov["evaluations"] += res["evaluations"]
+        ctx.cov["traces_validated_against_impl"] += len(cases)
+        ctx.cov["distinct_nontrivial"] += len(cases)
+        for m in res["bad"]:
+            ctx.violation("run %s calls=%s %s" % (m["variant"], m["calls"], m["sampler"]), m["why"],
+                          {"direction": "replay", "spec": "MC_Runner_genbig_" + v, "mismatch": m})
     # impl -> spec: real rayon interleavings
     ok_all = 0
     for threads in ((1, 2, 4, 16) if thorough else (2, 4)):
@@ -88,7 +103,7 @@ def run(ctx):
     okc, _, _ = ctx.validate_trace("Trace_Runner", ctx.write_ndjson("runner_c.ndjson", evs[: j + 1]))
     ctx.selftest("trace: returned array with a perturbed row", not okc)
     ctx.sample({"trace_events": [json.loads(x) for x in lines[:3]]})
-    ctx.cov["rule"] = ("Runner.tla model-checked for all interleavings of <=3 chains on 2 workers and all 2-call histories in the bounds (3 loop variants); "
+    ctx.cov["rule"] = ("Runner.tla model-checked for all interleavings of <=3 chains on 2 workers and all 2-call histories in the bounds (3 loop variants) plus 2-call histories of large calls (257..1025 rows, up to 1030 burn-in transitions); "
                        "replay: every call history (TLC) on counting chains of 4 element types with 1..32 chains and on MH, Gibbs, HMC, NUTSChain, NUTS; "
                        "trace: recorded step events of counting chains under rayon pools of several sizes; non-trivial = histories with burn-in")
     ctx.cov["exhaustive"] = True
